@@ -207,7 +207,7 @@ func (t *tracer) exprAlts(e ast.Node) []sched {
 	return alts
 }
 
-func key(s sched) string { return strings.Join(s.items, " ++ ") }
+func key(s sched) string  { return strings.Join(s.items, " ++ ") }
 func gkey(s sched) string { return fmt.Sprintf("%d|%s", s.guard, key(s)) }
 
 func dedup(a []sched) []sched {
